@@ -1280,7 +1280,11 @@ class Verifier(Engine):
             env["exc"] = ev_
             for cl in con.raises[ename]:
                 self.assume(self.spec(cl.expr, env))
-            raise RaiseSig(SymExc(cname, exact=exact, val=ev_, origin="call " + label))
+            excluded = ()
+            if not exact:
+                # the exact outcomes listed beside "X+" are separate cases
+                excluded = tuple(k2 for k2 in con.raises if not k2.endswith("+") and k2 != cname and self.exc.issub(k2, cname))
+            raise RaiseSig(SymExc(cname, exact=exact, excluded=excluded, val=ev_, origin="call " + label))
         finally:
             self.old_heap = saved_old
 
@@ -1412,6 +1416,20 @@ class Verifier(Engine):
         if name == "snap_key":
             ks, n, idx, kt = self._last_dict_snapshot
             return V(kt, z3.Select(ks, self.coerce(self.ev_v(a[0]), T.INT).t))
+        if name == "witness":
+            # witness(x, 'T', cond): obligation exists x. cond ; then a fresh x0 with cond(x0)
+            ex = self.spec_quant(False, a)
+            self.oblige("a witness exists for %s" % ast.unparse(a[2])[:60], "ghost", ex.t, text=ast.unparse(a[2]))
+            t_ = ty(a[1].value if isinstance(a[1], ast.Constant) else ast.unparse(a[1]))
+            w = V(t_, self.fresh("wit_" + a[0].id, sort_of(t_)))
+            saved = self.st.loc
+            self.st.loc = dict(saved)
+            self.st.loc[a[0].id] = w
+            try:
+                self.assume(self.truth(self.ev(a[2])))
+            finally:
+                self.st.loc = saved
+            return w
         if name == "allocated":
             v = self.ev_v(a[0])
             return V(T.BOOL, z3.Select(self.alloc_map(), v.t))
